@@ -110,21 +110,29 @@ func (w *zzFailW) Write(p []byte) (int, error) {
 	return 0, w.e
 }
 
-// zzShortW accepts the first k bytes of the first write and reports e.
+// zzShortW accepts the first k bytes it is offered - over as many Write
+// calls as it takes - and then reports e; calls after that are counted.
 type zzShortW struct {
-	k     int
-	e     error
-	b     []byte
-	calls int
+	k      int
+	e      error
+	b      []byte
+	calls  int
+	failed bool
+	after  int
 }
 
 func (w *zzShortW) Write(p []byte) (int, error) {
 	w.calls++
-	n := w.k
-	if n >= len(p) {
+	if w.failed {
+		w.after++
+		return 0, w.e
+	}
+	room := w.k - len(w.b)
+	if room >= len(p) {
 		w.b = append(w.b, p...)
 		return len(p), nil
 	}
-	w.b = append(w.b, p[:n]...)
-	return n, w.e
+	w.b = append(w.b, p[:room]...)
+	w.failed = true
+	return room, w.e
 }
